@@ -146,6 +146,18 @@ func init() {
 					c.Cover("lengths:" + lc.name)
 				}})
 			}
+			us = append(us, core.Unit{Name: "large", Cost: 120, Run: func(c *core.Ctx) {
+				for _, lc := range largeCases(tier) {
+					if !c.Begin() {
+						continue
+					}
+					c.NontrivialN(1)
+					c.Res.States++
+					c.Res.Transitions++
+					c.Outcome(wireCheck(c, lc.mk(), lc.desc, "large", nil))
+				}
+				c.Cover("large")
+			}})
 			us = append(us, core.Unit{Name: "classes", Cost: 5, Run: func(c *core.Ctx) {
 				classCountCases(func(desc string, v interface{}) {
 					if !c.Begin() {
